@@ -8,6 +8,7 @@ mod vplrun;
 mod expr;
 mod zdd;
 mod coord;
+mod dispatch;
 
 fn main() {
     let args: Vec<String> = std::env::args().collect();
@@ -30,6 +31,7 @@ fn main() {
         "zdd-machine" => zdd::machine(rest),
         "coord-replay" => coord::replay(rest),
         "coord-record" => coord::record(rest),
+        "dispatch-replay" => dispatch::replay(rest),
         other => {
             eprintln!("unknown engine {other}");
             std::process::exit(2);
